@@ -18,7 +18,12 @@ def ob_to_smt2(ob):
     for c in ob.pc:
         s.add(c)
     s.add(z3.Not(ob.goal))
-    return s.to_smt2()
+    text = s.to_smt2()
+    if 'strU' in text:
+        from .values import str_axioms
+        s.add(*str_axioms())
+        text = s.to_smt2()
+    return text
 
 
 def _z3_check(text, timeout_s, seed=0):
@@ -130,6 +135,8 @@ def get_model(ob, timeout_s=20):
     for c in ob.pc:
         s.add(c)
     s.add(z3.Not(ob.goal))
+    from .values import str_axioms
+    s.add(*str_axioms())
     if s.check() == z3.sat:
         return s.model()
     return None
